@@ -232,7 +232,8 @@ package table
 //@   ensures[nil-table] t2 == nil ==> result == nil && t.Data == old(t.Data) && t.mbs == old(t.mbs)
 //@   ensures[error-leaves-table] result != nil ==> t.Data == old(t.Data) && t.mbs == old(t.mbs) && t.AvailableBindings == old(t.AvailableBindings)
 //@   ensures[empty-target-accepts] t2 != nil && old(len(t.AvailableBindings)) == 0 ==> result == nil && t.mbs == t2.mbs && t.AvailableBindings == t2.AvailableBindings
-//@   ensures[appended] t2 != nil && result == nil ==> len(t.Data) == old(len(t.Data)) + old(len(t2.Data)) && (forall j int :: {t.Data[j]} 0 <= j && j < old(len(t.Data)) ==> t.Data[j] == old(t.Data[j])) && (forall j int :: {old(t2.Data[j])} 0 <= j && j < old(len(t2.Data)) ==> t.Data[old(len(t.Data)) + j] == old(t2.Data[j]))
+//@   ensures[left-rows-kept] result == nil ==> leftRowsKept(t.Data, old(t.Data))
+//@   ensures[appended] t2 != nil && result == nil ==> len(t.Data) == old(len(t.Data)) + old(len(t2.Data)) && (forall j int :: {t.Data[j]} {old(t.Data[j])} 0 <= j && j < old(len(t.Data)) ==> t.Data[j] == old(t.Data[j])) && (forall j int :: {old(t2.Data[j])} 0 <= j && j < old(len(t2.Data)) ==> t.Data[old(len(t.Data)) + j] == old(t2.Data[j]))
 
 //@ func (t *Table) unsafeAddBindings
 //@   opt terminates
@@ -250,7 +251,11 @@ package table
 
 // extends(x, r): row x has every binding of row r with the same cell.
 //@ spec macro extends(x Row, r Row) Bool = forall k string :: {has(r, k)} has(r, k) ==> has(x, k) && x[k] == r[k]
-//@ spec macro leftRowsKept(nw []Row, old []Row) Bool = forall i int :: {old[i]} 0 <= i && i < len(old) ==> exists j int :: {nw[j]} 0 <= j && j < len(nw) && extends(nw[j], old[i])
+// rowsKeptUpTo(nw, old, n): each of the first n rows of old is extended by (or is) some row of nw. It is
+// a `spec pred`: the solver sees a function symbol (of the arguments and the row contents) with a
+// defining axiom, so that two statements of it over equal tables agree without opening the body.
+//@ spec pred rowsKeptUpTo(nw []Row, old []Row, n Int) Bool = forall i int :: {old[i]} 0 <= i && i < n ==> exists j int :: {nw[j]} 0 <= j && j < len(nw) && (nw[j] == old[i] || extends(nw[j], old[i]))
+//@ spec macro leftRowsKept(nw []Row, old []Row) Bool = rowsKeptUpTo(nw, old, len(old))
 
 // joinWithRange: merge join over the shared bindings. Its body sorts both tables through slice
 // values that alias the tables' backing arrays, which the verifier's slice model cannot represent:
